@@ -363,11 +363,23 @@ def ob_targets_vs_ninja(dim):
             ts = e['target_sources']
             listed = sorted(os.path.normpath(x) for blk in ts for x in list(blk['sources']) + list(blk['generated_sources']))
             check(listed == sorted(ab(i) for i in st['ins']), 'sources + generated sources = the inputs the statement consumes')
-        for nm, flag in (('al', pr.alias), ('rt', pr.run_needs)):
+        for nm, flag in (('al', pr.alias), ('rt', pr.run_needs), ('al2', pr.alias2)):
             check((nm in by_name) == (flag is not None), 'alias / run targets are listed iff defined')
             if nm in by_name:
                 for f in by_name[nm]['filename']: check(os.path.relpath(f, c.bld) in g.producer, 'the name listed for an alias / run target is a statement of build.ninja')
         inst = {os.path.normpath(k): v for k, v in c.installed.items()}
+        prefix = c.it.environment.coredata.optstore.get_value_for('prefix')
+        plan_data = c.install_plan.get('data', {})
+        data_inst = {k: v for k, v in inst.items() if k.startswith(os.path.normpath(c.src) + os.sep)}
+        check(sorted(os.path.normpath(k) for k in plan_data) == sorted(data_inst), 'the install plan lists exactly the data files that are installed')
+        for k, e in plan_data.items():
+            dest = e['destination'].replace('{prefix}', prefix).replace('{datadir}', os.path.join(prefix, 'share'))
+            if not os.path.isabs(dest): dest = os.path.join(prefix, dest)
+            check(os.path.normpath(dest) == os.path.normpath(data_inst.get(os.path.normpath(k), '')), 'the destination the install plan names for a data file is where install puts it')
+        exp_data = {os.path.normpath(os.path.join(c.src, 'd/one.dat')): os.path.join(prefix, 'share/kept', 'd/one.dat' if pr.preserve else 'one.dat'),
+                    os.path.normpath(os.path.join(c.src, 'two.dat')): os.path.join(prefix, 'share/kept', 'two.dat')}
+        check({k: os.path.normpath(v) for k, v in data_inst.items()} == exp_data, 'install_data(preserve_path:) keeps or drops the sub-directory as declared')
+        inst = {k: v for k, v in inst.items() if k not in data_inst}
         exp_inst = {ab(pr.outs['C'][0]): os.path.join(c.it.environment.coredata.optstore.get_value_for('prefix'), 'share', 'c1.txt')} if pr.installed_c else {}
         check(inst == exp_inst, 'exactly the installed outputs are listed, with the destination install uses')
         if 'C' in by_name: check(by_name['C']['installed'] == pr.installed_c, 'the installed flag of a target')
